@@ -197,6 +197,8 @@ def run(ck):
     inflate_dict(ck, P)
     from . import c06
     c06.get_dictionary_guard(ck, P, "GUARD/get-dictionary")
+    from .. import condparity
+    ck.floor("SIB/ref-conditions", condparity.check(ck, P, "SIB/ref-conditions", only={"deflate.c:deflateSetDictionary", "inflate.c:inflateSetDictionary"}), 6)
     from .. import refwrites
     ck.floor("SIB/ref-writes", refwrites.check(ck, P, "SIB/ref-writes", only={"deflate.c:deflateSetDictionary", "inflate.c:inflateSetDictionary"}), 10)
     ck.assumptions += ["rustc MIR", "host target; K1"]
